@@ -42,7 +42,7 @@ ExprNorm(e) == IF Len(e) < 3 THEN e
                     IN IF e[1] \in {"+", "*"} /\ Rank(b) < Rank(a) THEN <<e[1], b, a>> ELSE <<e[1], a, b>>
 
 \* (an entry's `al` field -- written as a YAML alias of entry al of the same node -- is not part of the meaning)
-EntryMeaning(en) == [k |-> en.k, v |-> en.v, sub |-> {[k |-> s.k, v |-> s.v] : s \in {en.sub[i] : i \in 1..Len(en.sub)}}]
+EntryMeaning(en) == [k |-> en.k, v |-> en.v, str |-> en.str, sub |-> {[k |-> s.k, v |-> s.v] : s \in {en.sub[i] : i \in 1..Len(en.sub)}}]
 SweepMeaning(sw) == IF ~sw.on THEN sw ELSE [sw EXCEPT !.expr = ExprNorm(sw.expr), !.vorder = FALSE]
 NodeMeaning(n) == [proc |-> n.proc,
                    params |-> {EntryMeaning(n.ps[i]) : i \in 1..Len(n.ps)},
